@@ -321,6 +321,13 @@ def residue_eval(e, names, m, r):
             return QLin(0, int(e.value))
         if unparse(e, 200) in names:
             return QLin(m, r)
+        if isinstance(e, ast.Subscript) and isinstance(
+                e.value, ast.Call) and unparse(e.value.func) == "divmod" \
+                and len(e.value.args) == 2 and isinstance(
+                    e.slice, ast.Constant) and e.slice.value in (0, 1):
+            return ev(ast.BinOp(e.value.args[0], ast.FloorDiv()
+                                if e.slice.value == 0 else ast.Mod(),
+                                e.value.args[1]))
         if isinstance(e, ast.UnaryOp) and isinstance(e.op, ast.USub):
             v = ev(e.operand)
             return QLin(-v.a, -v.b)
